@@ -54,6 +54,17 @@ CHECKS.update({
         technique="TLA+ model checking (TLC) + three-way conformance (spec / reference storage / Badger store) by replay of TLC-generated call histories + TLC trace validation", ref="5/C06"),
 })
 
+FAN_NOTE = ("Remote nodes are scripted gRPC servers on loopback; only storage.Dataset is under test. Go's random choice among ready select cases "
+            "cannot be forced: the gates fix the state in which the choice is made and hundreds of schedules reach each state.")
+CHECKS.update({
+    "C09": dict(
+        text="FanOut.tla models the worker / helper / collector / context protocol of Dataset.Search and SearchPartitions with the switch CloseChans; TLC checks NoNilNil, OkMeansAll, FailLoud and termination exhaustively for 3 workers x {ok, err, slow} (holds for 'none', counterexamples for 'both' and 'resOnly'). FanOutGen emits every complete behaviour's environment schedule (worker completion order, collector iterations, cancellation); the harness forces them on the real Dataset through gates at the collector loop and scripted remote nodes, and FanOutTrace accepts a call only if its return is one the repaired model allows (exact top-k of the union on success, an error whenever a worker failed, was stuck or the context was cancelled, never a hang or an empty success).",
+        note=FAN_NOTE, technique="TLA+ model checking (TLC) + forcing TLC-generated schedules on the real Dataset via gates + TLC trace validation", ref="5/C09"),
+    "C17": dict(
+        text="FanOutSize.tla models SizeInfo's inline local counting, per-partition goroutines (switch LoopVarShared for the go 1.14 loop-variable capture), the helper that closes errorCh and the counting collector; TLC checks EachOnce / FailLoud / termination exhaustively for 3 partitions x local/remote x ok/fail. The TLC-generated schedules are forced on the real Dataset with scripted remote nodes holding distinct power-of-two sizes; FanOutTrace requires exact sums with every remote partition asked exactly once, or an error.",
+        note=FAN_NOTE, technique="TLA+ model checking (TLC) + forcing TLC-generated schedules on the real Dataset via gates + TLC trace validation", ref="5/C17"),
+})
+
 NOT_APPLICABLE = {
     "C15": "Numeric agreement and memory safety of hand-written AVX/SSE kernels: no state machine to specify, TLC has neither IEEE-754 floats nor a memory model; a differential/sanitizer technique would be needed (DESIGN.md section 6).",
 }
